@@ -20,6 +20,9 @@ pub struct VDoc {
     pub name: String,
     pub age: u64,
     pub opt: Option<u64>,
+    /// second optional scalar: with `opt` it forms a composite index whose
+    /// components can be absent on either side
+    pub opt2: Option<u64>,
     pub tags: Vec<String>,
     #[unique]
     pub codes: Vec<String>,
@@ -45,6 +48,7 @@ pub fn vdoc_codes(name: &str, age: u64, opt: Option<u64>, tags: &[&str], codes: 
         name: name.to_string(),
         age,
         opt,
+        opt2: None,
         tags: tags.iter().map(|s| s.to_string()).collect(),
         codes: codes.iter().map(|s| s.to_string()).collect(),
         attrs: tags.iter().map(|t| (format!("k{t}"), age)).collect(),
@@ -63,6 +67,7 @@ pub struct Idx {
     pub codes: bool,
     pub attrs: bool,
     pub age_opt: bool,
+    pub opt_opt2: bool,
     pub body: bool,
     pub emb: bool,
 }
@@ -76,6 +81,7 @@ impl Idx {
         codes: true,
         attrs: true,
         age_opt: false,
+        opt_opt2: false,
         body: true,
         emb: true,
     };
@@ -87,6 +93,7 @@ impl Idx {
         codes: false,
         attrs: false,
         age_opt: false,
+        opt_opt2: false,
         body: false,
         emb: false,
     };
@@ -98,6 +105,7 @@ impl Idx {
         codes: false,
         attrs: false,
         age_opt: false,
+        opt_opt2: false,
         body: false,
         emb: false,
     };
@@ -112,6 +120,9 @@ pub fn db_config() -> DBConfig {
         description: "verification fixture".to_string(),
         storage: StorageConfig {
             compress_level: 0,
+            // tiny index buckets: a handful of documents already spans several
+            // buckets, so splits, migrations and compaction have real work
+            bucket_overload_size: 96,
             ..Default::default()
         },
         lock: None,
@@ -164,6 +175,9 @@ pub async fn open_coll_with(db: &AndaDB, idx: Idx, had: Idx) -> Result<Arc<Colle
             }
             if idx.age_opt {
                 c.create_btree_index_nx(&["age", "opt"]).await?;
+            }
+            if idx.opt_opt2 {
+                c.create_btree_index_nx(&["opt", "opt2"]).await?;
             }
             if idx.body {
                 c.create_bm25_index_nx(&["body"]).await?;
